@@ -132,6 +132,9 @@ def c26(ck, F, tier):
     guarded(ck, io.derive_closure, F)
     guarded(ck, io.bytes_roundtrip_shape, F)
     guarded(ck, io.stored_eq_parsed, F)
+    import rules_paren as rp_
+    ck.rule("LIT", "identifiers survive the printer's case folding", floor=2)
+    guarded(ck, rp_.ident_case, F)
 
 
 def c08(ck, F, tier):
@@ -339,6 +342,8 @@ def c09(ck, F, tier):
     import rules_struct as rs_
     ck.rule("FULL-RANGE", "whole-row / whole-column printing requires both corners absolute and spanning the sheet", floor=3)
     guarded(ck, rs_.full_flags, F)
+    import rules_paren as rp_
+    guarded(ck, rp_.ident_case, F)
 
 
 def c16(ck, F, tier):
